@@ -154,6 +154,9 @@ func WorkerPool.Start
   ghost local waited Bool      -- ShutdownComplete.Wait has returned in this call (ghost)
   ghost at entry: waited = false
   ghost after call WaitGroup.Wait: waited = true
+  -- ... and it does not hold the pool mutex while it waits: the workers it waits for return only after their dispatcher has
+  -- closed the dispatch channel, and the dispatcher needs the mutex (IsRunning) to see that it has to stop
+  ghost before call WaitGroup.Wait: assert unlocked(w.mutex)
   ghost before call WorkerPool.startDispatcher: assert waited && w.isRunning
   ghost before call WorkerPool.startWorkers: assert waited && w.isRunning
   ensures unlocked(w.mutex) && r0 == w
